@@ -547,7 +547,7 @@ var c02Headers = [][]byte{
 func encoderFile(t *tape.Tape) ([]byte, []world.Op) {
 	// now and then with runs of hundreds of identical drawing calls: long
 	// polylines exist, and a destination must stay linear on them
-	prog := world.GenProgram(t, world.GenCfg{MaxItems: 10, EncOnly: true, LongRuns: 4})
+	prog := world.GenProgram(t, world.GenCfg{MaxItems: 10, EncOnly: true, LongRuns: 4, ManyStops: true})
 	var e encode.Encoder
 	world.Run(world.Target{Dst: &e, Enc: &e}, prog)
 	b, err := e.Bytes()
